@@ -182,7 +182,21 @@ def _eq(a, b):
     return str(a) == str(b)
 
 
+QUERY_TWIN = [False]
+QUERY_MARK = " @q"
+
+
 def impl_agg_op(line):
+    if line.endswith(QUERY_MARK):
+        QUERY_TWIN[0] = True
+        try:
+            return impl_agg_op(line[:-len(QUERY_MARK)])
+        finally:
+            QUERY_TWIN[0] = False
+    return _impl_agg_op(line)
+
+
+def _impl_agg_op(line):
     toks = line.split()
     t = Toks(toks[1:])
 
@@ -190,7 +204,20 @@ def impl_agg_op(line):
         L = lib()
         op = toks[0]
         if op == "gene":
-            g = _gene(t.children())
+            if QUERY_TWIN[0]:
+                # ` @q` twin: the same children, as the result of `query_by_guids` on a larger gene that lists them in
+                # the opposite order and holds one more isoform - the subset must be a gene OF ITS OWN children
+                cs = t.children()
+                txs = [mk_tx(i, c) for i, c in enumerate(cs)]
+                extra = mk_tx(len(cs) + 50, dict(strand="+", primary=False, blocks=[(0, 1)], cds=[], types=[]))
+                big = L["GeneInterval"](list(reversed(txs)) + [extra], gene_type=L["Biotype"].protein_coding, gene_id="g")
+                g = big.query_by_guids([x.guid for x in txs])
+                if g is None:
+                    raise AssertionError("query_by_guids returned None")
+                if [x.guid for x in g.transcripts] != [x.guid for x in txs]:
+                    raise AssertionError("query_by_guids changed the order of the requested members")
+            else:
+                g = _gene(t.children())
             p = _idx(g.transcripts, g.get_primary_transcript())
             assert g.get_primary_feature() is g.get_primary_transcript()
             cds = g.get_primary_cds()
